@@ -137,6 +137,7 @@ def _block(draw, idx, hexgeom, allow_oxide, isotopics, allow_grid):
         b["extraMult"] = draw(st.sampled_from(["omit", "count", "omit", "one"]))
         b["gridRoute"] = draw(st.sampled_from(["map", "contents"]))
         b["gridFill"] = draw(st.lists(st.integers(0, 5), min_size=1, max_size=12))
+        b["gridTrim"] = draw(st.booleans())
         b["gridMult"] = draw(st.sampled_from(["omit", "omit", "one", "count"]))
         b["compFlags"] = draw(st.sampled_from([None, None, None, "fuel depletable", "fuel", "control test", "depletable slug"]))
         b["axialTarget"] = draw(st.sampled_from([None, None, "clad", "meat"]))
@@ -212,7 +213,7 @@ def bp_spec(draw, max_rings=3, tier="quick"):
         cells = mm.domain_cells(kind, size)
     fill = draw(st.lists(st.integers(0, 3 * n_designs), min_size=1, max_size=24))
     spec["core"] = {"kind": kind, "size": size, "fill": fill, "route": draw(st.sampled_from(["map", "contents"])),
-                    "strip": draw(st.booleans()), "pad": draw(st.booleans())}
+                    "strip": draw(st.booleans()), "pad": draw(st.booleans()), "trim": draw(st.booleans())}
     spec["sfp"] = draw(st.booleans())
     return spec
 
@@ -328,6 +329,8 @@ def pin_grid_cells(b, hexgeom=True):
         out[(0, 0)] = "2"
     # the conventions need the right edge of a drawn tips-up map to be occupied (see c18_maps)
     out[(R, 0)] = "1"
+    if b.get("gridTrim") and R >= 1:
+        out = {(i, j): v for (i, j), v in out.items() if i + j > -R}  # empty bottom row, left out of the map text
     return R, out
 
 
@@ -573,11 +576,23 @@ def core_cells(spec):
         if (3 * f + k) % 5 == 4 and k != 0 and len(cells) > 2:
             continue  # hole
         out[c] = spec["designs"][(f + k) % nd]["specifier"]
+    if core.get("trim") and core["route"] == "map":
+        # an empty last row that the map text then leaves out (bottom row of a corners-up core, top row of a Cartesian one)
+        if kind == "hexFullTips" and size > 0:
+            out = {(i, j): v for (i, j), v in out.items() if i + j > -size}
+        elif kind == "cart" and size[1] >= 2:
+            out = {(i, j): v for (i, j), v in out.items() if j < size[1] - 1}
     if kind in ("hexFullFlat", "hexFullTips") and size > 0:
         out.setdefault((size, 0), spec["designs"][0]["specifier"])
         if kind == "hexFullFlat":
             out.setdefault((size - 1, 1), spec["designs"][0]["specifier"])
     return out
+
+
+def _blank(d, k):
+    """A modification entry that is not given: '' (user documentation) or YAML null, written null or ~ (both are named as "not
+    applied" by AssemblyBlueprint._shouldMaterialModiferBeApplied); the spelling varies with the design's data."""
+    return ("''", "null", "~")[(d["modMask"][k % len(d["modMask"])] + d["modKinds"] + k) % 3]
 
 
 def grid_text(name, geom, symmetry, contents=None, lattice=None, pitch=None, indent=4):
@@ -661,13 +676,13 @@ def render(spec):
         if by_block or by_comp:
             L.append("        material modifications:")
             for mod, vals in by_block.items():
-                L.append("            %s: [%s]" % (mod, ", ".join("''" if v is None else repr(v) for v in vals)))
+                L.append("            %s: [%s]" % (mod, ", ".join(_blank(d, k_) if v is None else repr(v) for k_, v in enumerate(vals))))
             if by_comp:
                 L.append("            by component:")
                 for cname, mods in by_comp.items():
                     L.append("                %s:" % cname)
                     for mod, vals in mods.items():
-                        L.append("                    %s: [%s]" % (mod, ", ".join("''" if v is None else repr(v) for v in vals)))
+                        L.append("                    %s: [%s]" % (mod, ", ".join(_blank(d, k_ + 1) if v is None else repr(v) for k_, v in enumerate(vals))))
         L.append("        xs types: [%s]" % ", ".join(d["xs"]))
     L.append("systems:")
     L.append("    core:")
@@ -689,7 +704,7 @@ def render(spec):
         pitch = None
     if core["route"] == "map":
         size = tuple(core["size"]) if core["kind"] == "cart" else core["size"]
-        rows, offs = mm.render_rows(core["kind"], size, contents, cut=0, strip_trailing=core["strip"])
+        rows, offs = mm.render_rows(core["kind"], size, contents, cut=0, strip_trailing=core["strip"], trim_rows=bool(core.get("trim")))
         text = mm.rows_to_text(rows, offs, pad=core["pad"])
         L += grid_text("core", spec["geom"], spec["symmetry"], lattice=text, pitch=pitch)
     else:
@@ -707,7 +722,7 @@ def render(spec):
             rows, offs = mm.render_rows("cart", (R, R), shifted, strip_trailing=False)
             L += grid_text(gname, pin_geom, "full", lattice=mm.rows_to_text(rows, offs))
         elif route == "map" and pin_geom == "hex_corners_up":
-            rows, offs = mm.render_rows("hexFullTips", R, cells, strip_trailing=True)
+            rows, offs = mm.render_rows("hexFullTips", R, cells, strip_trailing=True, trim_rows=True)
             L += grid_text(gname, pin_geom, "full", lattice=mm.rows_to_text(rows, offs))
         else:
             L += grid_text(gname, pin_geom, "full", contents=cells)
